@@ -164,7 +164,10 @@ std::optional<sqf::runtime::fileio::pathinfo> sqf::fileio::impl_default::get_inf
 {
     log(logmessage::fileio::ResolvePhysicalRequested(current.physical, current.virtual_, viewVirtual));
 
-    std::filesystem::path toFindPath(viewVirtual);
+    // backslashes are separators in every request: convert them before normalising, or "..\\" segments survive as file names until the virtual lookup
+    std::string requested(viewVirtual);
+    std::replace(requested.begin(), requested.end(), '\\', '/');
+    std::filesystem::path toFindPath(requested);
     toFindPath = toFindPath.lexically_normal();
     if (toFindPath.is_relative() || (viewVirtual.size() > 3 && (viewVirtual.substr(0, 3) == "../"sv || viewVirtual.substr(0, 3) == "..\\"sv)))
     {
